@@ -17,6 +17,8 @@
   Integers need no hypothesis: `str(int)` is `toString`, and `pyInt (toString i) = i` is proved.
 -/
 import DemesVerif.Model.Ms
+import DemesVerif.Spec.C07Sem
+import DemesVerif.Spec.C08
 namespace Demes.Spec.C09
 open Demes Demes.Ms
 
@@ -214,5 +216,133 @@ def constEpoch (N sr cr : Q) : Epoch :=
 def constDeme (name desc : String) (N sr cr : Q) : Deme :=
   { name := name, description := desc, startTime := .inf, ancestors := [], proportions := [],
     epochs := [constEpoch N sr cr] }
+
+/-! ## Graph → ms → graph: the composition of C07 and C08
+
+`to_ms` (C07) is interpreted by `Spec.C07.msSemG` (typed option records, symbolic growth rates);
+`from_ms` (C08) is compared with `Spec.MsSem.msSem` (strings, rational growth rates).  The
+definitions below connect the two: the class of graphs on which no non-zero growth rate is
+printed (`ConstSizes`), the hypothesis that the number codec covers what is printed
+(`CodecCovers`), the embedding of the observable of `msSemG` into the observable of `msSem`
+(`embedSem`), and the relation "the demography `A` of an ms command (or of the graph `from_ms`
+builds from it) is the demography `gs` of the graph on the lifetimes of the graph's demes"
+(`SemRefines`; an ms population exists from time 0 whereas a deme may end before the present, so
+nothing is asked of `A` before a deme's `end_time`). -/
+
+section RoundTrip
+open Demes.Spec.MsSem (Seg PopSem MigSeg Move DemogSem Pop mkSeg migSegs)
+open Demes.Spec.C07 (Upd PopSemG DemogSemG)
+
+/-- every epoch of the graph has equal start and end sizes (whatever its `size_function`), so
+that `to_ms` emits no `-g` / `-eg` option -/
+def ConstSizes (g : Graph) : Bool :=
+  g.demes.all (fun d => d.epochs.all (fun e => decide (e.startSize = e.endSize)))
+
+/-- a token the codec can print so that it is read back: every number token is in the codec's
+domain (and is not `-inf`) -/
+def tokCovered (c : NumCodec) : Tok Growth → Prop
+  | .num x => c.ok x
+  | _ => True
+
+/-- the codec covers every number of the command -/
+def CodecCovers (c : NumCodec) (toks : List (Tok Growth)) : Prop := ∀ t ∈ toks, tokCovered c t
+
+instance (c : NumCodec) [∀ x, Decidable (c.ok x)] : DecidablePred (tokCovered c) := fun t => by
+  cases t <;> unfold tokCovered <;> infer_instance
+
+instance (c : NumCodec) [∀ x, Decidable (c.ok x)] (toks : List (Tok Growth)) : Decidable (CodecCovers c toks) := by
+  unfold CodecCovers; infer_instance
+
+/-- the rational value of a symbolic growth rate; only `0` has one (the embedding is used on
+growth-free demographies only, see `GrowthFree`) -/
+def growthQ : Growth → Q
+  | .zero => 0
+  | .sym _ _ => 0
+
+/-- the population of the string interpreter (`MsSem.Pop`) that a list of size / growth updates
+builds, by the interpreter's own `Pop.change` -/
+def evalUpds (lo : Q) (upd : List Upd) : Pop :=
+  upd.foldl (fun q u => q.change u.t (u.size.map Sz.ofQ) (u.growth.map growthQ))
+    { lo := lo, t0 := lo, size0 := Sz.ofQ 0 }
+
+/-- the end of a population's lifetime as `-ej` records it in the string interpreter -/
+def closePop (q : Pop) : ETime → Pop
+  | .inf => q
+  | .fin T => { q with hi := .fin T, t0 := T, size0 := q.sizeAt T,
+                       segs := if q.t0 < T then q.segs ++ [mkSeg q.t0 (.fin T) q.size0 q.growth] else q.segs }
+
+/-- a population of `msSemG` (update list) as a population of `msSem` (evaluated segments) -/
+def embedPop (p : PopSemG) : PopSem :=
+  { id := p.id, lo := p.lo, hi := p.hi, segs := C08.finalSegs (closePop (evalUpds p.lo p.upd) p.hi) }
+
+/-- no update sets a non-zero growth rate -/
+def GrowthFree (s : DemogSemG) : Bool :=
+  s.pops.all (fun p => p.upd.all (fun u => u.growth = none || u.growth = some .zero))
+
+/-- the observable of `msSemG` as an observable of `msSem`: update lists evaluated into
+segments, the matrix snapshots run-length encoded into the migration step function (`migSegs`,
+over the number of populations of the last snapshot), the lineage movements unchanged -/
+def embedSem (s : DemogSemG) : DemogSem :=
+  { pops := s.pops.map embedPop,
+    migs := migSegs s.snaps ((s.snaps.getLast?.map (·.2.length)).getD 0),
+    moves := s.moves }
+
+/-- the size of a population at time `t`: the value there of the one segment that owns `t` -/
+def sizeAt (p : PopSem) (t : Q) : Option Sz :=
+  match p.segs.filter (C08.segOwns · t) with
+  | [s] => C08.segValue s t
+  | _ => none
+
+/-- the rate at which a lineage of population `i` moves to population `j` at time `t` according
+to a migration step function (`0` when no segment of the pair covers `t`) -/
+def rateOf (migs : List MigSeg) (i j : Nat) (t : Q) : Q :=
+  ((migs.find? (fun m => C07.covers m i j t)).map (·.rate)).getD 0
+
+/-- at time `t`, for lineages of population `pi` (inside its lifetime): the rate of moving to `pj`
+is the graph's when `pj` exists, and `0` when it does not (`C07.migMatchAt` with the rate read off
+a step function instead of the matrix snapshots) -/
+def migRefinesAt (A gs : DemogSem) (pi pj : PopSem) (t : Q) : Bool :=
+  let r := rateOf A.migs pi.id pj.id t
+  if C07.inLife pj t then
+    if r = 0 then gs.migs.all (fun m => !C07.covers m pi.id pj.id t)
+    else gs.migs.any (fun m => C07.covers m pi.id pj.id t && m.rate = r)
+  else r = 0
+
+/-- the times at which one of the two migration step functions, or the set of living demes, can
+change -/
+def migCutsD (A gs : DemogSem) : List Q :=
+  0 :: A.migs.map (·.t0) ++ C07.finTimes (A.migs.map (·.t1)) ++ gs.migs.map (·.t0) ++ C07.finTimes (gs.migs.map (·.t1))
+    ++ gs.pops.map (·.lo) ++ C07.finTimes (gs.pops.map (·.hi))
+
+/-- the same migration rates at every time of a deme's lifetime, none into a deme outside its
+lifetime (step functions: checked at every time one of them can change) -/
+def migsRefine (A gs : DemogSem) : Bool :=
+  gs.pops.all (fun pi => gs.pops.all (fun pj => pi.id = pj.id ||
+    (migCutsD A gs).all (fun t => !C07.inLife pi t || migRefinesAt A gs pi pj t)))
+
+/-- **`A` describes the demography `gs` of a graph on the lifetimes of its demes**: the same
+populations in the same order; each ends where the graph's deme starts and exists at least from
+the deme's end time; at *every* time of a deme's lifetime the population has the deme's size
+(exactly, as a symbolic size `coef·exp(expo)`, so growth rates agree too); the migration rates
+agree on the lifetimes (`migsRefine`); and the lineage movements, restricted to the lifetimes,
+are the graph's (`C07.restrictMoves`). -/
+structure SemRefines (A gs : DemogSem) : Prop where
+  ids : A.pops.map (·.id) = gs.pops.map (·.id)
+  lives : ∀ ab ∈ A.pops.zip gs.pops, ab.1.hi = ab.2.hi ∧ ab.1.lo ≤ ab.2.lo
+  sizes : ∀ ab ∈ A.pops.zip gs.pops, ∀ t, ab.2.lo ≤ t → ETime.fin t < ab.2.hi →
+    (sizeAt ab.2 t).isSome = true ∧ sizeAt ab.1 t = sizeAt ab.2 t
+  migs : migsRefine A gs = true
+  moves : C07.restrictMoves gs A.moves = some gs.moves
+
+/-- the pulses whose `to_ms` encoding lies in the fragment `C08.Tame'` on which the lineage movements
+of `from_ms` are proved: every proportion is below one (F6: a pulse of proportion 1 is printed
+`-es t d 0.0 -ej …`), and of two pulses at the same time the one listed first does not go into the
+source of the one listed later (`to_ms` prints the later one first; `Tame'` asks that no population
+is split or joined after it has received lineages at the same time) -/
+def PulsesTame (g : Graph) : Bool :=
+  g.pulses.all (fun p => p.proportions.all (fun x => decide (x < 1)))
+  && pairwiseB (fun a b => !(a.time == b.time) || !(b.sources.contains a.dest)) g.pulses
+
+end RoundTrip
 
 end Demes.Spec.C09
